@@ -25,6 +25,9 @@ def utf8_samples():
         '😀😀\r\n€é\r',
         'a,"é""€"\r\n#😀\r\n"\r\n",b',
         '﻿é',
+        # valid text that contains the replacement character itself, and the first / last code point of every encoded length
+        'a\ufffdb,"\ufffd"\r\n\ufffd',
+        '\x7f\x80,\u07ff\u0800\n\uffff\U00010000,\U0010ffff',
     ]
 
 
@@ -177,7 +180,7 @@ def run_shard(spec, res):
                             len(data), enc, filler, pad, st['emitted'][:4], nrec[0], st['error'], nrec[1], bk['error']), {'pad': pad, 'filler': filler, 'encoding': enc}, finding=None)
             res.sample({'bigfile': '64 KiB +/- 3 bytes with a multi-byte character / CRLF / multi-line record straddling the default chunk boundary; 200 KiB file'})
         elif kind == 'random':
-            alpha = ['a', 'b', '"', '"', ',', ',', '\n', '\r', '\r\n', '#', ' ', 'é', '€', '😀', '""']
+            alpha = ['a', 'b', '"', '"', ',', ',', '\n', '\r', '\r\n', '#', ' ', 'é', '€', '😀', '""', '\ufffd', '\uffff', '\u0800']
             cases = []
             for _ in range(spec['n']):
                 text = ''.join(rng.choice(alpha) for _ in range(rng.randrange(4, 40)))
